@@ -361,7 +361,9 @@ class ExtMixin(object):
 
     def x_set(self, args, kwargs, node, env):
         if not args:
-            return SetAccV()
+            out = SetAccV()
+            out.depth = len(getattr(self, "loop_stack", ()))    # symbolic loops open where the set is made
+            return out
         v = args[0]
         if isinstance(v, ListV):
             seen = {}
